@@ -123,6 +123,12 @@ func (b *batchedEvents) UnmarshalMsg(bts []byte) (o []byte, err error) {
 		err = msgp.WrapError(err)
 		return
 	}
+	// every event occupies at least one byte: do not trust a count that the
+	// body cannot possibly hold (a 5-byte body may announce 4G events)
+	if uint64(totalValues) > uint64(len(bts)) {
+		err = msgp.WrapError(msgp.ErrShortBytes)
+		return
+	}
 	b.events = make([]batchedEvent, totalValues)
 	for i := range b.events {
 		b.events[i].cfg = b.cfg
